@@ -232,7 +232,24 @@ def retries_kw(cfg):
 USER_FORMS = ([], [2], [0], [1], [3], [2, 2], [0, 1], [1, 0], [1, 3], [0, 2])
 
 
+def left_out_wires():
+    """Wires whose model file does not compile on this tree (a translator item it reads is broken) and which the
+    pipeline therefore left out of the model binary."""
+    from vh import core
+    try:
+        return set(json.load(open(os.path.join(core.EXTRACT_DIR, 'left_out_wires.json'))))
+    except Exception:
+        return set()
+
+
 def model_case(case):
+    mc = model_case95(case)
+    if mc[0] == 95 and mc[1][0] != 3 and '95' in _state.get('left_out', ()) and '9' not in _state.get('left_out', ()):
+        return [9, mc[1]]        # same payloads; wire_9 computes model AND spec with the store-level budget
+    return mc
+
+
+def model_case95(case):
     _, pls = env()
     if case['kind'] == 'chunk':
         p = pls[case['payload']]
@@ -1521,15 +1538,96 @@ def check_paths(ctx, case, log, names):
 
 # ---------------------------------------------------------------------------------------------------
 
+# ---------------------------------------------------------------------------------------------------
+# The counting spec once more, in Python.  Used ONLY for the failing-input search on a tree on which the model files of
+# this property do not compile (broken translator item: the pipeline leaves their wires out of the model binary) - and,
+# on every normal run, compared with the extracted spec on all chunk / rdb / put / is_complete cases.
+
+def py_store_budget(cfg):
+    if len(cfg) == 5:
+        return cfg
+    c, r = (2, 2) if not cfg else (cfg[0], cfg[0]) if len(cfg) == 1 else cfg
+    return [10, c, r, 5, list(GLITCHES)]
+
+
+def py_spec(cfg, length, fs):
+    """(class, number of requests) by counting faults against the store-level budget."""
+    total, _, read, status, fl = py_store_budget(cfg)
+    nr = ns = n = 0
+    for s in fs:
+        if (s[0] in (1, 2, 3) and s[1] < length) or s[0] == 4:
+            nr += 1
+        elif s[0] == 0 and s[1] in fl:
+            ns += 1
+        elif s[0] == 0:
+            return (AUTH if s[1] in (401, 403) else NOTFOUND if s[1] == 404 else UNAVAIL), n + 1
+        else:
+            return OK, n + 1
+        n += 1
+        if (read is not None and nr > read) or (status is not None and ns > status) or (total is not None and n > total):
+            return GLITCH, n
+    return OK, n + 1
+
+
+def py_mout(case):
+    """Output in the format of the wire of the case kind with the python spec in both halves; None = no fallback."""
+    _, pls = env()
+    kind = case['kind']
+    if kind == 'rdb':
+        cls, n = py_spec(case['cfg'], len(rdb_bytes()), case['fs'])
+        return [[0 if cls == OK else 1, 0], n, [cls, 0], n]
+    if kind == 'chunk':
+        cls, n = py_spec(case['cfg'], len(pls[case['payload']]['data']), case['fs'])
+        if cls == NOTFOUND:
+            return None              # the 404 rule needs the model of the listing request
+        return [[cls, 0], n, 0, int(case.get('verified', False)), [cls, 0]]
+    if kind == 'site' and case['site'] in ('put', 'complete') and case.get('empty', True):
+        cls, n = py_spec(case['cfg'], 0, case['fs'])
+        if case['site'] == 'put':
+            return [[cls, 0], n, [cls, 0], n]
+        r = [0, 0] if cls == OK else [1, 0] if cls in (NOTFOUND, GLITCH) else [2, cls]
+        return [r, n, r, n]
+    return None
+
+
+def safe_model(ctx, cases):
+    """Model / spec outputs of `cases`.  Kinds whose wire is not in the driver get the python spec (property half
+    only: ties are not judged then) or None."""
+    left = _state.get('left_out', set())
+    mcs = [model_case(c) for c in cases]
+    have = [i for i, m in enumerate(mcs) if str(m[0]) not in left]
+    out = [None] * len(cases)
+    if have:
+        for i, o in zip(have, ctx.model([mcs[i] for i in have])):
+            out[i] = o
+    for i, c in enumerate(cases):
+        if out[i] is None:
+            out[i] = py_mout(c)
+            ctx.count('python_spec_fallback' if out[i] is not None else 'skipped_no_model_wire')
+        elif not left and c['kind'] in ('rdb', 'chunk', 'site') and not _state.get('stale'):
+            ref = py_mout(c)
+            if ref is not None:
+                whole = c['kind'] == 'site' and c['site'] == 'complete'
+                cut = (lambda r: r) if whole else (lambda r: r[0])
+                spec = (cut(out[i][2]), out[i][3]) if c['kind'] != 'chunk' else (out[i][4][0], None)
+                mine = (cut(ref[2]), ref[3]) if c['kind'] != 'chunk' else (ref[4][0], None)
+                ctx.count('python_spec_crosschecked')
+                if spec != mine:
+                    ctx.disagree('kind=%s;what=python_reference_spec_differs_from_extracted_spec' % c['kind'], c,
+                                 dict(python=mine), dict(extracted=spec), 'harness: the python copy of the counting '
+                                 'spec (used when the model does not build) differs from the extracted spec', kind='tie')
+    return out
+
+
 def canon(case):
     return json.dumps({k: v for k, v in case.items() if k not in ('token_str', 'url') and not k.startswith('_')},
                       sort_keys=True, default=str)
 
 
 def run_cases(ctx, cases):
-    mouts = ctx.model([model_case(c) for c in cases]) if (ctx.model_ok or _state.get('stale')) else None
+    mouts = safe_model(ctx, cases) if (ctx.model_ok or _state.get('stale')) else None
     for i, c in enumerate(cases):
-        if mouts is None:
+        if mouts is None or mouts[i] is None:
             continue
         compare(ctx, c, mouts[i])
         if c['kind'] == 'session':
@@ -1614,15 +1712,20 @@ def run(ctx):
         # half is still the property, its MODEL half describes another tree - ties are not judged with it
         from vh import core
         stamp = os.path.join(core.EXTRACT_DIR, 'stamp')
-        if not os.path.exists(stamp) or open(stamp).read() != core.model_hash():
+        # stamp = <hash of the model sources>|<model files left out of the driver>; the second part is judged below
+        if not os.path.exists(stamp) or open(stamp).read().split('|')[0] != core.model_hash():
             _state['stale'] = True
     env()
+    _state['left_out'] = left_out_wires()
+    if _state['left_out'] & {'9', '91', '92', '93', '94', '95'}:
+        _state['stale'] = True
     # known-finding witnesses first (fixed ones must pass, open ones must still fail)
     for f in ctx.findings:
         w = dict(f['witness'])
         w.setdefault('label', 'witness')
-        mo = ctx.model([model_case(w)])[0]
-        compare(ctx, w, mo)
+        mo = safe_model(ctx, [w])[0]
+        if mo is not None:
+            compare(ctx, w, mo)
         ctx.count('known_finding_witnesses')
     cdir = os.path.join(os.path.dirname(os.path.dirname(os.path.dirname(os.path.abspath(__file__)))), 'corpus', 'C09')
     if os.path.isdir(cdir):
@@ -1632,12 +1735,12 @@ def run(ctx):
     if ctx.model_ok and not _state.get('stale'):
         _state['expected_paths'] = expected_paths(ctx)
     run_cases(ctx, url_cases(ctx))
-    run_cases(ctx, budget_cases(ctx))
     run_cases(ctx, token_cases(ctx))
     run_cases(ctx, hist_cases(ctx))
     run_cases(ctx, site_cases(ctx))
     run_cases(ctx, session_cases(ctx))
     run_cases(ctx, gen_cases(ctx))
+    run_cases(ctx, budget_cases(ctx))
     ctx.exhaustive = False
     ctx.extra['exhaustive_part'] = ('all fault scripts of length <= %d over the %d fast symbols for the 9 (read, status) '
                                     'budgets in {0,1,2}^2 (18 symbols for the zero-size payload); all histories of <= 2 get_chunk calls on one store object '
@@ -1669,10 +1772,15 @@ def replay(ctx, doc):
     case = doc.get('case') or doc.get('witness')
     if not case or 'kind' not in case:
         return
-    if ctx.model_ok:
+    _state['left_out'] = left_out_wires()
+    if _state['left_out'] & {'9', '91', '92', '93', '94', '95'}:
+        _state['stale'] = True
+    if ctx.model_ok and not _state.get('stale'):
         env()
         _state['expected_paths'] = expected_paths(ctx)
-    mo = ctx.model([model_case(case)])[0]
+    mo = safe_model(ctx, [case])[0]
+    if mo is None:
+        return
     ok = compare(ctx, case, mo)
     ctx.note_case(canon(case))
     log = __import__('sys').stderr
